@@ -54,6 +54,12 @@ pub struct Layout {
     /// stacked layouts: configure a byte-equality consistency checker
     #[serde(default)]
     pub checker: bool,
+    /// the filesystem has no hard links (link/linkat fail with EPERM)
+    #[serde(default)]
+    pub no_hard_links: bool,
+    /// two-hour-old debris of crashed writers sits in every `.kismet_temp`
+    #[serde(default)]
+    pub stale_debris: bool,
 }
 
 #[derive(Clone, Debug, PartialEq, Eq, Hash, Serialize, Deserialize)]
@@ -114,6 +120,16 @@ pub fn prepare(root: &Path, l: &Layout) {
         // every other preloaded entry carries a read mark (it will be reprieved, not evicted)
         let m = old + *k as i128;
         set_times_ns(&p, if *k % 2 == 0 { m + 1 } else { m - 120_000_000_000 }, m).unwrap();
+    }
+    if l.stale_debris && !l.dirs_missing {
+        let two_hours_ago = now_ns() - 2 * 3_600_000_000_000;
+        for d in cache_dirs(root, l) {
+            for i in 0..3 {
+                let p = d.join(".kismet_temp").join(format!("debris{}", i));
+                plant_file(&p, b"debris of a crashed writer", 0o600);
+                let _ = set_times_ns(&p, two_hours_ago, two_hours_ago);
+            }
+        }
     }
     if l.kind >= 2 {
         shim::bypass(|| std::fs::create_dir_all(root.join("R")).unwrap());
@@ -406,7 +422,7 @@ fn perform(root: &Path, l: &Layout, h: &Handle, ro: &Option<Handle>, tid: usize,
 /// Runs `progs` (one per participant) under `strategy`.
 pub fn run_conc(root: &Path, l: &Layout, progs: &[Vec<POp>], strategy: &Sched, opts: RunOpts) -> ExecOut {
     let n = progs.len();
-    let world = World::new(WorldCfg { roots: vec![root.to_string_lossy().into_owned()], trace: true, capture_listings: false, yield_data: opts.yield_data, participants: n, ..Default::default() });
+    let world = World::new(WorldCfg { roots: vec![root.to_string_lossy().into_owned()], trace: true, capture_listings: false, yield_data: opts.yield_data, participants: n, deny_link: if l.no_hard_links { libc::EPERM } else { 0 }, ..Default::default() });
     let monitor_err: Arc<Mutex<Option<String>>> = Arc::new(Mutex::new(None));
     let monitor: Option<Box<dyn FnMut() + Send>> = if opts.monitor {
         let root = root.to_path_buf();
@@ -516,6 +532,8 @@ pub fn gen_layout(kinds: Vec<u8>, caps: Vec<usize>) -> impl Strategy<Value = Lay
         preload_reader: if kind >= 2 { pr } else { vec![] },
         dirs_missing,
         checker: false,
+        no_hard_links: false,
+        stale_debris: false,
     })
 }
 
